@@ -55,6 +55,8 @@ TYPES = {
     "list_base": List[S.Base],
     "opt_abstract": Optional[S.AbstractBase],
     "opt_holder": Optional[S.Holder],
+    "list_opt_holder": List[Optional[S.Holder]],
+    "tuple_holder_int": Tuple[S.Holder, int],
     "opt_withpath": Optional[S.WithPath],
     "callable_base": Callable[[int], S.Base],
     "opt_model": Optional[S.Model],
